@@ -26,12 +26,20 @@ def r1_r2(cx):
     ls = cx.mir.one("varlink", "server::listen")
     cx.saw(ls)
     cfg = Cfg(ls); du = DefUse(ls); sl = Slice(ls, du)
+    mut_borrowed = {st.rplace.l for st in ls.stmts() if st.kind == "assign" and st.rv == "ref" and st.rplace is not None and not st.rplace.p and st.bk and "mut" in str(st.bk).lower()}
+    def canon(l):
+        """the variable a local stands for: the first one on its copy/reference chain that is assigned more than once or borrowed
+        mutably (a counter that is updated in place or through a `&mut` handed to a helper), else the end of the chain"""
+        ch = [x for x in ref_chain(du, l) if not str(ls.ty(x)).startswith("&")] or ref_chain(du, l)
+        for x in ch:
+            if x in mut_borrowed or len(du.defs.get(x, [])) > 1: return x
+        return ch[-1]
     acc = ls.calls("=accept"); ex = ls.calls("=execute")
     if len(acc) != 1 or len(ex) != 1: raise AnchorMissing("listen: accept/execute")
     acc, ex = acc[0], ex[0]
     site = "%s %s" % (acc.sp, ls.path)
     # quantum local: second argument of accept
-    wt = ref_chain(du, acc.args[1].place.l)[-1]
+    wt = canon(acc.args[1].place.l)
     # Timeout arm
     ti = variant_index(cx, "varlink", "error::ErrorKind", "Timeout")
     tedge = None
@@ -53,13 +61,14 @@ def r1_r2(cx):
         if b.cleanup or b.term.kind != "switch" or b.idx not in arm: continue
         c = switch_cond(ls, du, b.term)
         if c.kind == "bin" and c.op in ("Le", "Lt", "Ge", "Gt") and c.a.place is not None and c.b.place is not None:
-            la = ref_chain(du, c.a.place.l)[-1]; lb = ref_chain(du, c.b.place.l)[-1]
+            la = canon(c.a.place.l); lb = canon(c.b.place.l)
             if lb == wt and la != wt: tw = la
             elif la == wt and lb != wt: tw = lb
     if tw is None: raise AnchorMissing("listen: no comparison of a countdown with the poll quantum in the Timeout arm")
     def is_idle_ms(s):
         """assignment `countdown = idle_timeout * 1000` (possibly through a hoisted local)"""
-        if s.kind != "assign" or s.lhs.p or s.lhs.l != tw or s.rv != "use" or not s.ops or s.ops[0].place is None: return False
+        if s.kind != "assign" or tuple(s.lhs.p) not in ((), ("*",)) or (s.lhs.l != tw if not s.lhs.p else canon(s.lhs.l) != tw) or s.rv != "use" or not s.ops or s.ops[0].place is None: return False
+        if s.lhs.p and s.lhs.l == tw: return False
         for k, o in sl.origins(s.ops[0]):
             if k == "bin" and o.op.startswith("Mul") and any(x.is_const and x.cint() == 1000 for x in o.ops):
                 other = [x for x in o.ops if not x.is_const]
@@ -68,6 +77,8 @@ def r1_r2(cx):
                         if kk == "stmt" and dd.ops and dd.ops[0].place is not None and "idle_timeout" in dd.ops[0].place.fields(): return True
         return False
     resets = [s for s in ls.stmts() if is_idle_ms(s)]
+    import os
+    if os.environ.get("VERIF_DEBUG"): print("DEBUG C15 tw", tw, "wt", wt, "resets", [(str(x), x.bb) for x in resets], "mut_borrowed", sorted(mut_borrowed))
     if not resets: raise AnchorMissing("listen: the countdown is never set to idle_timeout * 1000")
     # the two conditions
     le_edge = busy0_edge = None; busy_false = None; le_false = None
@@ -76,8 +87,8 @@ def r1_r2(cx):
         c = switch_cond(ls, du, b.term)
         if c.kind != "bin": continue
         te, fe = bool_edges(b.term, c)
-        la = ref_chain(du, c.a.place.l)[-1] if c.a.place is not None else None
-        lb = ref_chain(du, c.b.place.l)[-1] if c.b.place is not None else None
+        la = canon(c.a.place.l) if c.a.place is not None else None
+        lb = canon(c.b.place.l) if c.b.place is not None else None
         if c.op in ("Le", "Lt") and la == tw and lb == wt: le_edge, le_false = te, fe
         if c.op in ("Ge", "Gt") and la == wt and lb == tw: le_edge, le_false = te, fe
         # the negated spellings: `countdown > quantum` / `quantum < countdown` are true exactly when the budget is NOT used up
@@ -102,11 +113,12 @@ def r1_r2(cx):
         cx.check(cfg.must_pass(busy_false[2], [acc.bb], rb), "C15.R1", "varlink:listen:countdown-restarts-when-busy", site,
                  "with workers busy at the deadline the countdown is not restarted", note_ok="busy at the deadline -> countdown restarts")
     # decrement by exactly the quantum on the other edge
-    decs = [s for s in ls.stmts() if s.kind == "assign" and s.rv == "bin" and s.op.startswith("Sub") and s.ops[0].place is not None and ref_chain(du, s.ops[0].place.l)[-1] == tw]
-    okd = len(decs) == 1 and decs[0].ops[1].place is not None and ref_chain(du, decs[0].ops[1].place.l)[-1] == wt and le_false is not None and cfg.edge_dominates(le_false, decs[0].bb)
+    decs = [s for s in ls.stmts() if s.kind == "assign" and s.rv == "bin" and s.op.startswith("Sub") and s.ops[0].place is not None and canon(s.ops[0].place.l) == tw]
+    okd = len(decs) == 1 and decs[0].ops[1].place is not None and canon(decs[0].ops[1].place.l) == wt and le_false is not None and cfg.edge_dominates(le_false, decs[0].bb)
     cx.check(okd, "C15.R1", "varlink:listen:countdown-decrement", site, "the countdown is not decreased by exactly the poll quantum on the not-yet-expired edge", note_ok="countdown -= quantum")
     # nothing else writes the countdown
-    others = [s for s in ls.stmts() if s.kind == "assign" and s.lhs.l == tw and not s.lhs.p and s not in resets and not any(s.ops and s.ops[0].place is not None and s.ops[0].place.l == d.lhs.l for d in decs)]
+    others = [s for s in ls.stmts() if s.kind == "assign" and ((s.lhs.l == tw and not s.lhs.p) or (tuple(s.lhs.p) == ("*",) and s.lhs.l != tw and canon(s.lhs.l) == tw)) and s not in resets
+              and not any(s.ops and s.ops[0].place is not None and s.ops[0].place.l == d.lhs.l for d in decs) and s not in decs]
     cx.check(not others, "C15.R1", "varlink:listen:countdown-writers", site, "unexpected writes to the countdown at %s" % [s.sp for s in others], note_ok="%d restarts, 1 decrement" % len(resets))
     # the quantum: unwrap_or(map(stop.as_ref(), |_| K), countdown)
     q = [o for k, o in sl.origins(acc.args[1]) if k == "call"]
